@@ -9,7 +9,7 @@ PROFILES = ['fault', 'fault', 'mixed', 'close', 'sendfail']
 N_QUICK, N_THOROUGH = 300, 4000
 RULE = 'seeded lock-step scenarios with connection failures (reset seen by both ends) at arbitrary frame boundaries, FINs, session Close by either side racing (at label granularity) with open/read/write/close and frames in flight, inactivity timers on a virtual clock; state dumps (Q) at quiescent moments; distinct = distinct concrete label sequences'
 ORACLE = muxlib.oracle_c12
-TRUSTED = ['atomic steps of the hand-written model as GENERATED obligations (Proofs/AtomMux.v, re-proved on every run about coq/Gen/Atomicity.v; in a private re-generated copy under VERIF_EXTRA_OVERLAY): tools/lockscan (go/ast, syntactic types) is trusted to list, per function of internal/{server,multiplex,common,client}, every field access / call / sync/atomic operation with the critical sections (Lock..Unlock / RLock..RUnlock / deferred unlock, mutex identity by name) it lies in, every sync.Pool.Put with the later mentions of the object, and every variable a go statement shares with its spawner (anything it cannot resolve is in atomicity_errors, which must be empty); it does not follow calls (a region is what one function writes between Lock and Unlock), does no alias analysis, treats callbacks as running with no lock held, and counts call sites, not executions (a loop around one call site is invisible)', 'Coq 8.16.1 kernel incl. vm_compute (no native_compute)', 'hand-written model coq/Model/Mux.v of Session/Stream/switchboard at the granularity "one harness label runs to quiescence"; re-sequencer = coq/Model/Reorder.v', 'frames are abstract (decoded) in this model: codec and record framing are the subject of C04/C05', 'correspondence: lock-step driver harness/multiplex/mux_test.go on two real Sessions over harness-owned in-memory connections under testing/synctest (virtual clock, quiescence barrier) vs extracted OCaml model (ExtrOcamlBasic only); connection picks of pickRandConn are read off the wire tap and fed to the model', 'goroutine interleavings INSIDE a label (e.g. preemption inside a critical section) are not enumerated: covered by the fine-grained sender LTS (C13), the race detector runs and the schedule-point hooks']
+TRUSTED = ['atomic steps of the hand-written model as GENERATED obligations (Proofs/AtomMux.v, re-proved on every run about coq/Gen/Atomicity.v; in a private re-generated copy under VERIF_EXTRA_OVERLAY): tools/lockscan (go/ast, syntactic types) is trusted to list, per function of internal/{server,multiplex,common,client}, every field access / call / sync/atomic operation with the critical sections (Lock..Unlock / RLock..RUnlock / deferred unlock, mutex identity by name) it lies in, every sync.Pool.Put with the later mentions of the object, and every variable a go statement shares with its spawner (anything it cannot resolve is in atomicity_errors, which must be empty); it does not follow calls (a region is what one function writes between Lock and Unlock), does no alias analysis, treats callbacks as running with no lock held, and counts call sites, not executions (a loop around one call site is invisible); send-lock discipline (AtomMux: no mutex possibly held across the blocking conn.Write is acquired on the path from switchboard.deplex): the scanner supplies the in-package call graph over functions and their bool specialisations (interface receivers resolved to every in-package implementer; deferred calls, callbacks and function values count as calls, go statements do not; cross-package calls are not edges) and, per call, the locks possibly held - reachability to the conn.Write call and from deplex is computed inside Coq; who removes entries (AtomReplay/AtomPanel/AtomMux): the scanner distinguishes element stores (w), delete/clear (del), assignment of the whole field (set), address-of (addr) and the map being handed on as a value (val); a delete on a local map is recorded under the name of that local', 'Coq 8.16.1 kernel incl. vm_compute (no native_compute)', 'hand-written model coq/Model/Mux.v of Session/Stream/switchboard at the granularity "one harness label runs to quiescence"; re-sequencer = coq/Model/Reorder.v', 'frames are abstract (decoded) in this model: codec and record framing are the subject of C04/C05', 'correspondence: lock-step driver harness/multiplex/mux_test.go on two real Sessions over harness-owned in-memory connections under testing/synctest (virtual clock, quiescence barrier) vs extracted OCaml model (ExtrOcamlBasic only); connection picks of pickRandConn are read off the wire tap and fed to the model', 'goroutine interleavings INSIDE a label (e.g. preemption inside a critical section) are not enumerated: covered by the fine-grained sender LTS (C13), the race detector runs and the schedule-point hooks']
 ASSUMPTIONS = ['connections are FIFO, deliver whole messages (C05) and a reset/EOF is seen by both ends', 'sequence numbers stay below 2^64-1, fewer than 2^32 streams per session']
 
 
